@@ -78,3 +78,11 @@ Theorem C10_rewriting_to_nothing_is_derivation_of_the_empty_string : forall term
   forall l, gen (arules rules) (fun _ => false) l <-> derives (cg terms rules) (map (conv terms) l) [].
 Proof. exact gen_nil_derives. Qed.
 Print Assumptions C10_rewriting_to_nothing_is_derivation_of_the_empty_string.
+
+(* "accessible" is top-down reachability in the recognition theory, for productive grammars without rules for terminals *)
+Theorem C10_accessible_is_top_down_reachable : forall terms rules,
+  (forall s rhs0, In (s, rhs0) (arules rules) -> is_term terms s = false) ->
+  Viable.productive (cg terms rules) -> is_term terms n_axiom = false -> forall x, is_term terms x = false ->
+  (ReadGrammarSem.reachable (arules rules) n_axiom x <-> exists p, reach (cg terms rules) n_axiom p x).
+Proof. exact reachable_reach. Qed.
+Print Assumptions C10_accessible_is_top_down_reachable.
